@@ -300,7 +300,7 @@ theorem execQueue_no_crash (conn : Nat) (q : List Queued) :
       simp only
       split_ifs
       · exact ih _ _ _ _ _ _ hq
-      · cases hp : parseCmd name args with
+      · cases hp : parseCmdQ c.q name args with
         | none => simp only; exact ih _ _ _ _ _ _ hq
         | some cmd =>
           simp only
